@@ -2,7 +2,8 @@ use super::{DataType, Entry, GlobalEntry, GlobalTable, LookupTable, SymbolTable}
 use crate::{
     ast::{
         ArrayAccess, Assignment, BinaryExpression, BlockStatement, CallStatement, Expression,
-        GlobalDeclaration, IfStatement, Program, Statement, Variable, WhileStatement,
+        GlobalDeclaration, IfStatement, Program, Statement, UnaryExpression, Variable,
+        WhileStatement,
     },
     error::{SemanticErrorMessage, SplError},
     ToRange,
@@ -271,10 +272,29 @@ impl AnalyzeExpression for Expression {
             Self::IntLiteral(_) => Some(DataType::Int),
             Self::Variable(v) => v.analyze(table),
             Self::Binary(b) => b.analyze(table),
-            Self::Unary(u) => u.expr.analyze(table),
+            Self::Unary(u) => u.analyze(table),
             Self::Bracketed(b) => b.expr.analyze(table),
             Self::Error(_) => None,
         }
+    }
+}
+
+impl AnalyzeExpression for UnaryExpression {
+    fn analyze(&mut self, table: &LookupTable) -> Option<DataType> {
+        match self.expr.analyze(table) {
+            Some(DataType::Int) => { /* happy path */ }
+            Some(_) => {
+                self.info.append_error(SplError(
+                    self.to_range(),
+                    SemanticErrorMessage::ArithmeticOperatorNonInteger.into(),
+                ));
+            }
+            None => {
+                // An error already occurred in the operand.
+            }
+        }
+        // The only unary operator is the arithmetic negation.
+        Some(DataType::Int)
     }
 }
 
